@@ -439,3 +439,171 @@ Proof.
 Qed.
 
 End Values.
+
+(* ================================================================== *)
+(* Part 4: what resolve returns, sorting, the structural pass           *)
+
+Lemma resolve_node_spec : forall j k u live q, j <= k -> u < 2 ^ (k - j) ->
+  resolve (2 ^ k) live (pos k j u) = ANode q ->
+  exists j' u', 1 <= j' /\ j' <= j /\ u' < 2 ^ (k - j') /\ q = pos k j' u' /\
+                u' * 2 ^ j' = u * 2 ^ j /\ u' * 2 ^ j' + 2 ^ (j' - 1) < live /\
+                (j' = j \/ live <= u * 2 ^ j + 2 ^ j').
+Proof.
+  induction j as [|j IH]; intros k u live q H2 H3 E.
+  - rewrite Nat.sub_0_r in H3. rewrite (resolve_leaf_level k u live H3) in E.
+    destruct (u <? live); discriminate.
+  - rewrite (resolve_rec k (S j) u live) in E by lia. replace (S j - 1) with j in E by lia.
+    destruct (live <=? u * 2 ^ S j) eqn:E1; [discriminate|]. apply Nat.leb_gt in E1.
+    destruct (live =? u * 2 ^ S j + 1) eqn:E2; [discriminate|].
+    destruct (live <=? u * 2 ^ S j + 2 ^ j) eqn:E3.
+    + apply Nat.leb_le in E3.
+      assert (Hu : 2 * u < 2 ^ (k - j)).
+      { replace (k - j) with (S (k - S j)) by lia. rewrite pow2_S. lia. }
+      destruct (IH k (2 * u) live q ltac:(lia) Hu E) as [j' [u' [A1 [A2 [A3 [A4 [A5 [A6 A7]]]]]]]].
+      assert (Ha : 2 * u * 2 ^ j = u * 2 ^ S j) by (rewrite pow2_S; lia).
+      exists j', u'. repeat split; try lia. right.
+      pose proof (Nat.pow_le_mono_r 2 j' j ltac:(lia) A2). destruct A7 as [->|A7]; lia.
+    + apply Nat.leb_gt in E3. injection E as <-.
+      exists (S j), u. replace (S j - 1) with j by lia. repeat split; try lia.
+Qed.
+
+Lemma resolve_leaf_spec : forall j k u live i, j <= k -> u < 2 ^ (k - j) ->
+  resolve (2 ^ k) live (pos k j u) = ALeaf i ->
+  i = u * 2 ^ j /\ i < live /\ Nat.min (2 ^ j) (live - i) = 1.
+Proof.
+  induction j as [|j IH]; intros k u live i H2 H3 E.
+  - rewrite Nat.sub_0_r in H3. rewrite (resolve_leaf_level k u live H3) in E.
+    destruct (u <? live) eqn:E1; [|discriminate]. apply Nat.ltb_lt in E1. injection E as <-.
+    change (2 ^ 0) with 1. lia.
+  - rewrite (resolve_rec k (S j) u live) in E by lia. replace (S j - 1) with j in E by lia.
+    destruct (live <=? u * 2 ^ S j) eqn:E1; [discriminate|]. apply Nat.leb_gt in E1.
+    destruct (live =? u * 2 ^ S j + 1) eqn:E2.
+    { apply Nat.eqb_eq in E2. assert (Hi : i = u * 2 ^ S j) by congruence. subst i.
+      pose proof (pow2_ge2 (S j) ltac:(lia)) as Hp. repeat split; lia. }
+    destruct (live <=? u * 2 ^ S j + 2 ^ j) eqn:E3; [|discriminate].
+    apply Nat.leb_le in E3.
+    assert (Hu : 2 * u < 2 ^ (k - j)).
+    { replace (k - j) with (S (k - S j)) by lia. rewrite pow2_S. lia. }
+    destruct (IH k (2 * u) live i ltac:(lia) Hu E) as [A1 [A2 A3]].
+    assert (Ha : 2 * u * 2 ^ j = u * 2 ^ S j) by (rewrite pow2_S; lia).
+    split; [lia|]. split; [lia|]. rewrite pow2_S. pose proof (pow2_pos j). lia.
+Qed.
+
+(* deeper nodes have larger heap positions *)
+Lemma pos_deeper k j u j' u' : j' < j -> j <= k -> u < 2 ^ (k - j) -> pos k j u < pos k j' u'.
+Proof.
+  intros H1 H2 H3. unfold pos.
+  pose proof (Nat.pow_le_mono_r 2 (S (k - j)) (k - j') ltac:(lia) ltac:(lia)) as Hm.
+  rewrite pow2_S in Hm. pose proof (pow2_pos (k - j)). lia.
+Qed.
+
+(* ---- sort_desc_unique ---- *)
+Lemma insert_desc_in x l y : In y (insert_desc x l) <-> y = x \/ In y l.
+Proof.
+  induction l as [|z r IH]; simpl; [intuition|].
+  destruct (z <? x) eqn:E1; simpl; [intuition|].
+  destruct (z =? x) eqn:E2; simpl.
+  - apply Nat.eqb_eq in E2. subst. intuition.
+  - rewrite IH. intuition.
+Qed.
+
+Inductive desc_sorted : list nat -> Prop :=
+| ds_nil : desc_sorted []
+| ds_cons : forall x l, (forall y, In y l -> y < x) -> desc_sorted l -> desc_sorted (x :: l).
+
+Lemma insert_desc_sorted x l : desc_sorted l -> desc_sorted (insert_desc x l).
+Proof.
+  induction 1 as [|z r Hz Hr IH]; simpl.
+  - constructor; [intros y []|constructor].
+  - destruct (z <? x) eqn:E1.
+    + apply Nat.ltb_lt in E1. constructor; [|constructor; assumption].
+      intros y [->|Hy]; [assumption|]. specialize (Hz y Hy). lia.
+    + apply Nat.ltb_ge in E1. destruct (z =? x) eqn:E2.
+      * constructor; assumption.
+      * apply Nat.eqb_neq in E2. constructor; [|assumption].
+        intros y Hy. apply insert_desc_in in Hy. destruct Hy as [->|Hy]; [lia|auto].
+Qed.
+
+Lemma sort_desc_unique_in l y : In y (sort_desc_unique l) <-> In y l.
+Proof.
+  unfold sort_desc_unique. induction l as [|x r IH]; simpl; [tauto|].
+  rewrite insert_desc_in, IH. intuition.
+Qed.
+
+Lemma sort_desc_unique_sorted l : desc_sorted (sort_desc_unique l).
+Proof. unfold sort_desc_unique. induction l; simpl; [constructor|apply insert_desc_sorted; assumption]. Qed.
+
+Lemma down_from_in n y : In y (down_from n) <-> y < n.
+Proof. induction n; simpl; [lia|]. rewrite IHn. lia. Qed.
+
+Lemma down_from_sorted n : desc_sorted (down_from n).
+Proof. induction n; simpl; constructor; [|assumption]. intros y Hy. apply down_from_in in Hy. exact Hy. Qed.
+
+Lemma desc_sorted_filter g l : desc_sorted l -> desc_sorted (filter g l).
+Proof.
+  induction 1 as [|x r Hx Hr IH]; simpl; [constructor|].
+  destruct (g x); [|assumption]. constructor; [|assumption].
+  intros y Hy. apply filter_In in Hy. apply Hx. tauto.
+Qed.
+
+(* ---- Phase 1 of rebuild_structure, index-wise ---- *)
+Section Phase1.
+Variable cf : cfg.
+
+Definition fresh_comb : comb := mkComb SNone SNone None false.
+
+Lemma phase1_spec C live : forall positions combs cr rt combs1 cr1 rt1,
+  fold_left (phase1_at cf C live) positions (combs, cr, rt) = (combs1, cr1, rt1) ->
+  length combs1 = length combs /\
+  (forall p, ~ In p positions -> nth_opt p combs1 = nth_opt p combs) /\
+  (forall p, In p positions -> p < length combs -> present combs1 p = needed cf C live p) /\
+  (forall p c, nth_opt p combs1 = Some (Some c) -> nth_opt p combs = Some (Some c) \/ (c = fresh_comb /\ In p positions)).
+Proof.
+  induction positions as [|q r IH]; intros combs cr rt combs1 cr1 rt1 E.
+  - simpl in E. injection E as <- <- <-. repeat split; auto. intros p [].
+  - cbn [fold_left] in E.
+    assert (Hstep : exists combs' cr' rt', phase1_at cf C live (combs, cr, rt) q = (combs', cr', rt') /\
+              length combs' = length combs /\
+              (forall p, p <> q -> nth_opt p combs' = nth_opt p combs) /\
+              (q < length combs -> present combs' q = needed cf C live q) /\
+              (forall c, nth_opt q combs' = Some (Some c) -> nth_opt q combs = Some (Some c) \/ c = fresh_comb)).
+    { unfold phase1_at. destruct (nth_opt q combs) as [[c|]|] eqn:Eq.
+      - destruct (needed cf C live q) eqn:En.
+        + exists combs, cr, rt. repeat split; auto.
+          * intros _. unfold present. rewrite Eq. reflexivity.
+          * intros c0 Hc. left. rewrite Eq in Hc. exact Hc.
+        + assert (Hq : q < length combs) by (apply nth_opt_length; congruence).
+          exists (set_nth q None combs), cr, (rt ++ [q]). repeat split.
+          * apply set_nth_length.
+          * intros p Hp. apply nth_opt_set_nth_other. lia.
+          * intros _. unfold present. rewrite nth_opt_set_nth_same by assumption. reflexivity.
+          * intros c0 Hc. rewrite nth_opt_set_nth_same in Hc by assumption. discriminate.
+      - assert (Hq : q < length combs) by (apply nth_opt_length; congruence).
+        destruct (needed cf C live q) eqn:En.
+        + exists (set_nth q (Some fresh_comb) combs), (cr ++ [q]), rt. repeat split.
+          * apply set_nth_length.
+          * intros p Hp. apply nth_opt_set_nth_other. lia.
+          * intros _. unfold present. rewrite nth_opt_set_nth_same by assumption. reflexivity.
+          * intros c0 Hc. rewrite nth_opt_set_nth_same in Hc by assumption. right. congruence.
+        + exists combs, cr, rt. repeat split; auto.
+          * intros _. unfold present. rewrite Eq. reflexivity.
+          * intros c0 Hc. rewrite Eq in Hc. discriminate.
+      - exists combs, cr, rt. repeat split; auto.
+        + intros Hq. apply nth_opt_none in Eq. lia.
+        + intros c0 Hc. rewrite Eq in Hc. discriminate. }
+    destruct Hstep as [combs' [cr' [rt' [Es [Hl [Ho [Hq Hc]]]]]]].
+    rewrite Es in E. destruct (IH combs' cr' rt' combs1 cr1 rt1 E) as [I1 [I2 [I3 I4]]].
+    split; [lia|]. split; [|split].
+    + intros p Hp. simpl in Hp. rewrite I2 by tauto. apply Ho. intros ->. tauto.
+    + intros p Hp Hlen. destruct (in_dec Nat.eq_dec p r) as [Hin|Hnin].
+      * apply I3; [assumption|lia].
+      * destruct Hp as [->|Hp]; [|contradiction].
+        unfold present. rewrite I2 by assumption. apply Hq. exact Hlen.
+    + intros p c Hpc. destruct (I4 p c Hpc) as [Hc1|[Hc1 Hc2]].
+      * destruct (Nat.eq_dec p q) as [->|Hne].
+        { destruct (Hc c Hc1) as [Hc3|Hc3]; [left; exact Hc3|right; split; [exact Hc3|left; reflexivity]]. }
+        { left. rewrite <- Ho by assumption. exact Hc1. }
+      * right. split; [assumption|right; assumption].
+Qed.
+
+End Phase1.
